@@ -3,6 +3,8 @@ import TongoProofs.Lemmas.CellTable
 import TongoProofs.Lemmas.HashMemo
 import TongoProofs.Lemmas.CellNoPanic
 import TongoGen.LevelMask
+import TongoGen.CellDesc
+import TongoProofs.Lemmas.GenTiesA
 /-! Property C02 — cell hash, depth and level follow the TON representation-hash definition.
 
 Model: `Tongo.Cell.info` = `newImmutableCell` on a whole tree (`computeInfo`/`levelStep` per cell, line by line),
@@ -250,5 +252,19 @@ def exAll : Cell := .mk tyOrdinary 2 [true] [exProof, exUpd]
 
 example : Spec.WFExotic exAll ∧ Spec.tooDeep exAll = false := by decide +kernel
 example : Spec.cellLevel exAll = 2 ∧ Spec.cellLevel exOrd = 3 := by decide +kernel
+
+/-- tie (X4, regenerated from boc/cell.go): the descriptor byte `d1` REGENERATED on every run
+(`byte(cell.RefsSize() + specBit + 32*int(mask))`, 64-bit `int`, 32-bit `levelMask`; `TongoGen/CellDesc.lean`) is the
+`Tongo.d1` hashed by the model, for every reference count, exotic flag and mask in range. -/
+theorem gen_d1 (nrefs mask : Nat) (exotic : Bool) (hn : nrefs < 2^62) (hm : mask < 2^32) :
+    Gen.CellDesc.d1 (BitVec.ofNat 32 mask) (BitVec.ofNat 64 nrefs) exotic = (Tongo.d1 nrefs exotic mask).toBitVec :=
+  GenTies.gen_d1 nrefs mask exotic hn hm
+
+/-- tie (X4, regenerated from boc/cell.go): the descriptor byte `d2` REGENERATED on every run
+(`byte((cell.BitSize()+7)/8 + cell.BitSize()/8)`, Go's signed division) is the `Tongo.d2` hashed by the model, for every
+bit length below 2⁶². -/
+theorem gen_d2 (bitLen : Nat) (h : bitLen < 2^62) :
+    Gen.CellDesc.d2 (BitVec.ofNat 64 bitLen) = (Tongo.d2 bitLen).toBitVec :=
+  GenTies.gen_d2 bitLen h
 
 end Tongo.C02
